@@ -381,8 +381,8 @@ InfosOf(lst, s, interval) ==
     ELSE (IF HavePrice(interval, vprice[Head(lst)][s], now) THEN <<EntryOf(Head(lst), s)>> ELSE <<>>)
          \o InfosOf(Tail(lst), s, interval)
 
-\* `fails` says whether CalculatePrices returns its error; EndBlock (below) computes it, a trace check that does not
-\* own the price computation passes the observed outcome instead.
+\* failsOf maps "some current feed's price computation returns the error" to "CalculatePrices fails": the identity in
+\* EndBlock (below); a trace check that does not own the price computation substitutes the observed outcome.
 EndBlockCore(dt, nf, ord, failsOf(_)) ==
     LET isUpd  == h % params.upd = 0
         feeds1 == IF isUpd THEN nf ELSE feeds
